@@ -82,12 +82,9 @@ def main():
             continue
         if r is None:
             c.count(l, nontrivial=False)
-            f = l.split()
-            empty_series = (int(f[5]) == 0 and f[1] in ('StorageTrapAll', 'InstreamDissolvedNutrientDecay')
-                            and 'index out of range [0] with length 0' in raw)
             c.violation('run_crash_%d.json' % i, {'kind': 'crash-in-Run', 'case_line': l, 'impl': raw,
                                                  'replay': 'echo "%s" | harness/bin/cellrun' % l},
-                        key='empty-series-kernel-panic' if empty_series else None)
+                        key=None)
             continue
         L = r['layout']
         cls = ('eq' if L['NSets'] == L['N'] else 'div' if L['N'] % L['NSets'] == 0 else 'coprime',
